@@ -352,7 +352,13 @@ class FaultOracle(Oracle):
                         raise run.violation("params_modified_before_raise", gi, param=pi, **ctx)
         # -- per-block clauses for the blocks processed before a raise (or all) --------------------------------------------
         any_failure = False
+        fired_keys = {(c["group"], c["block"], c["factor"]) for c in seam.fired}
         for gi, li, failures in exp["failed_blocks"]:
+            # only computations that were actually attempted in this step are judged: an implementation may reject a
+            # non-finite factor matrix of a later block before it calls the routine for any block of the refresh
+            failures = [k for k in failures if (gi, li, k) in fired_keys]
+            if not failures:
+                continue
             any_failure = True
             b = run.blocks[gi][li]
             sh = run.opt.state[b.param][b.key]["shampoo"]
